@@ -714,43 +714,55 @@ theorem runLeaves_flatten_nest (its : List Item) (h : neRun its = true) :
     | nil => rfl
     | cons x l ih' => simp [runLeaves_cons, nestItem_leaves, ih']
 
-theorem uniqueByPath_sub : ∀ (xs seen : List Item), ∀ x ∈ uniqueByPath xs seen, x ∈ xs
-  | [], _, x, h => by simp [uniqueByPath] at h
-  | t :: ts, seen, x, h => by
-    simp only [uniqueByPath] at h
-    split at h
-    · exact List.mem_cons_of_mem _ (uniqueByPath_sub ts seen x h)
-    · rcases List.mem_cons.1 h with rfl | h
-      · simp
-      · exact List.mem_cons_of_mem _ (uniqueByPath_sub ts _ x h)
+theorem sameVis_key {a b : Option (List Char)} (h : sameVis a b = true) : a.getD [] = b.getD [] := by
+  cases a <;> cases b <;> simp_all [sameVis]
 
-theorem uniqueByPath_cover : ∀ (xs seen : List Item), ∀ x ∈ xs,
-    (∃ s ∈ seen, s.tree = x.tree) ∨ (∃ y ∈ uniqueByPath xs seen, y.tree = x.tree)
+theorem isRepeatedBy_leaves {s t : Item} (h : isRepeatedBy s t = true) :
+    itemLeaves s = itemLeaves t := by
+  simp only [isRepeatedBy, Bool.and_eq_true, Option.isNone_iff_eq_none, Bool.not_eq_true'] at h
+  obtain ⟨⟨⟨⟨⟨ht, hv⟩, hsa⟩, hta⟩, _⟩, _⟩ := h
+  simp only [itemLeaves, treeBEq_eq _ _ ht, sameVis_key hv, hsa, hta]
+
+theorem dedupItems_sub : ∀ (xs res : List Item), ∀ x ∈ dedupItems xs res, x ∈ res ∨ x ∈ xs
+  | [], _, x, h => by simp only [dedupItems] at h; exact Or.inl h
+  | t :: ts, res, x, h => by
+    simp only [dedupItems] at h
+    split at h
+    · rcases dedupItems_sub ts res x h with h | h
+      · exact Or.inl h
+      · exact Or.inr (List.mem_cons_of_mem _ h)
+    · rcases dedupItems_sub ts _ x h with h | h
+      · rcases List.mem_append.1 h with h | h
+        · exact Or.inl h
+        · simp only [List.mem_singleton] at h; subst h; exact Or.inr (by simp)
+      · exact Or.inr (List.mem_cons_of_mem _ h)
+
+theorem dedupItems_keeps : ∀ (xs res : List Item), ∀ x ∈ res, x ∈ dedupItems xs res
+  | [], _, x, h => by simpa only [dedupItems] using h
+  | t :: ts, res, x, h => by
+    simp only [dedupItems]
+    split
+    · exact dedupItems_keeps ts res x h
+    · exact dedupItems_keeps ts _ x (List.mem_append_left _ h)
+
+theorem dedupItems_cover : ∀ (xs res : List Item), ∀ x ∈ xs,
+    ∃ y ∈ dedupItems xs res, itemLeaves y = itemLeaves x
   | [], _, x, h => by simp at h
-  | t :: ts, seen, x, h => by
-    simp only [uniqueByPath]
+  | t :: ts, res, x, h => by
+    simp only [dedupItems]
     split
     · rename_i hs
       rcases List.mem_cons.1 h with rfl | h
-      · left
-        simp only [List.any_eq_true] at hs
+      · simp only [List.any_eq_true] at hs
         obtain ⟨s, hs, he⟩ := hs
-        exact ⟨s, hs, treeBEq_eq _ _ he⟩
-      · exact uniqueByPath_cover ts seen x h
+        exact ⟨s, dedupItems_keeps ts res s hs, isRepeatedBy_leaves he⟩
+      · exact dedupItems_cover ts res x h
     · rcases List.mem_cons.1 h with rfl | h
-      · right; exact ⟨x, by simp, rfl⟩
-      · rcases uniqueByPath_cover ts (seen ++ [t]) x h with ⟨s, hs, he⟩ | ⟨y, hy, he⟩
-        · rcases List.mem_append.1 hs with hs | hs
-          · left; exact ⟨s, hs, he⟩
-          · simp only [List.mem_singleton] at hs
-            subst hs
-            right; exact ⟨s, by simp, he⟩
-        · right; exact ⟨y, List.mem_cons_of_mem _ hy, he⟩
+      · exact ⟨x, dedupItems_keeps ts _ x (by simp), rfl⟩
+      · exact dedupItems_cover ts _ x h
 
-/-- `Item` granularity keeps the keyed leaf set when no import occurs twice with different
-visibility or attributes. -/
-theorem granularity_item_leaves (its : List Item) (hne : neRun its = true)
-    (hd : dupSameKey (runLeaves its) = true) :
+/-- `Item` granularity keeps the keyed leaf set (nested paths non-empty). -/
+theorem granularity_item_leaves (its : List Item) (hne : neRun its = true) :
     SetEq (runLeaves (flattenUseTrees .item its)) (runLeaves its) := by
   unfold flattenUseTrees
   have hxs := runLeaves_flatten_nest its hne
@@ -760,24 +772,14 @@ theorem granularity_item_leaves (its : List Item) (hne : neRun its = true)
   · intro hl
     obtain ⟨y, hy, hly⟩ := mem_runLeaves.1 hl
     rw [← hxs]
-    exact mem_runLeaves.2 ⟨y, uniqueByPath_sub xs [] y hy, hly⟩
+    rcases dedupItems_sub xs [] y hy with h | h
+    · simp at h
+    · exact mem_runLeaves.2 ⟨y, h, hly⟩
   · intro hl
-    rw [← hxs] at hl hd
+    rw [← hxs] at hl
     obtain ⟨x, hx, hlx⟩ := mem_runLeaves.1 hl
-    rcases uniqueByPath_cover xs [] x hx with ⟨s, hs, _⟩ | ⟨y, hy, he⟩
-    · simp at hs
-    · refine mem_runLeaves.2 ⟨y, hy, ?_⟩
-      simp only [itemLeaves, List.mem_map] at hlx ⊢
-      obtain ⟨lf, hlf, rfl⟩ := hlx
-      refine ⟨lf, he ▸ hlf, ?_⟩
-      -- both keyed leaves are in the run: the keys agree
-      have h1 : (⟨y.vis.getD [], y.attrs, lf⟩ : ItemLeaf) ∈ runLeaves xs :=
-        mem_runLeaves.2 ⟨y, uniqueByPath_sub xs [] y hy, by
-          simp only [itemLeaves, List.mem_map]; exact ⟨lf, he ▸ hlf, rfl⟩⟩
-      simp only [dupSameKey, List.all_eq_true] at hd
-      have := hd _ h1 _ hl
-      simp at this
-      simp [this.1, this.2]
+    obtain ⟨y, hy, he⟩ := dedupItems_cover xs [] x hx
+    exact mem_runLeaves.2 ⟨y, hy, he ▸ hlx⟩
 
 theorem granularity_preserve (cmp : Tree → Tree → Ordering) (its : List Item) :
     withGranularity cmp .preserve its = .ok its := rfl
@@ -839,9 +841,6 @@ theorem sharePrefix_true {sp : SharedPrefix} {a b : Item} (h : sharePrefix sp a 
       Option.isSome_iff_ne_none, ne_eq, Decidable.not_not, Bool.not_eq_true] at hc
     obtain ⟨⟨⟨⟨h1, h2⟩, h3⟩, h4⟩, h5⟩ := hc
     exact ⟨h3, h4, by simpa using h5, h1, h2, h⟩
-
-theorem sameVis_key {a b : Option (List Char)} (h : sameVis a b = true) : a.getD [] = b.getD [] := by
-  cases a <;> cases b <;> simp_all [sameVis]
 
 theorem mergeItem_fields {cmp sp} {a b a' : Item} (h : mergeItem cmp sp a b = .ok a') :
     a'.vis = a.vis ∧ a'.attrs = a.attrs ∧ a'.hasComment = a.hasComment := by
@@ -2495,8 +2494,8 @@ theorem granularity_safe (cmp : Tree → Tree → Ordering) (g : Granularity) (i
   | preserve => simp only [withGranularity, Except.ok.injEq] at h; subst h; exact SetEq.refl _
   | item =>
     simp only [withGranularity, Except.ok.injEq] at h; subst h
-    simp only [safeFor, Bool.and_eq_true] at hs
-    exact granularity_item_leaves its hs.1 hs.2
+    simp only [safeFor] at hs
+    exact granularity_item_leaves its hs
   | crate => exact (granularity_leaves cmp .crate .crate rfl its res h hs).1
   | module => exact (granularity_leaves cmp .module .module rfl its res h hs).1
   | one => exact (granularity_leaves cmp .one .one rfl its res h hs).1
